@@ -382,5 +382,7 @@ def run(ctx, led):
              "wall-clock statistic (WHO-MAY + inter-procedural TAINT must-not-reach)", q3, ctx)
     run_rule(led, "Q4", "no address is turned into an integer, printed or hashed", q4, ctx)
     run_rule(led, "Q5", "no environment variable, process id, thread or directory order is read", q5, ctx)
+    from . import C14 as _C14
+    run_rule(led, "Q7", "output files are created truncating: what a run writes does not depend on what an earlier run left at the path (shared with C14-G10)", _C14.g10, ctx)
     run_rule(led, "Q6", "random generators are built only by seed_from_u64 from an option or "
              "constant", q6, ctx)
